@@ -6,6 +6,9 @@ mod c11;
 mod c12;
 mod c14;
 mod c15;
+mod c16;
+#[cfg(feature = "cfg_default")]
+mod c17;
 mod elems;
 mod grid;
 mod shapes;
@@ -21,13 +24,16 @@ pub fn arg(args: &[String], name: &str) -> Option<String> {
 
 fn main() {
     let args: Vec<String> = std::env::args().collect();
-    vrt::quiet_panics();
+    if std::env::var("VRT_LOUD").is_err() {
+        vrt::quiet_panics();
+    }
     vrt::rmwlog::install();
     vrt::arena::init_thread(8 << 20, 8192, 65536);
     if let Some(c) = arg(&args, "--child") {
         match c.as_str() {
             "c05ovf" => c05::child_overflow(&args),
             "c07alloc" => c07::child_allocfail(&args),
+            "c16" => c16::child(&args),
             _ => panic!("unknown child"),
         }
         return;
@@ -42,6 +48,9 @@ fn main() {
         "c15" => c15::run(&tier),
         "c11" => c11::run(&tier),
         "c12" => c12::run(&tier),
+        "c16" => c16::run(&tier),
+        #[cfg(feature = "cfg_default")]
+        "c17" => c17::run(&tier),
         "c14" => c14::run(&tier, std::env::var("VERIF_SEED").ok().and_then(|s| s.parse().ok()).unwrap_or(0)),
         _ => panic!("unknown part"),
     };
